@@ -1,10 +1,13 @@
 #!/bin/sh
-# Build the conformance harness (both feature configurations of triomphe) from files on disk only.
+# Build the conformance harness (every configuration the checks use) from files on disk only.
 set -e
 cd "$(dirname "$0")/harness"
 export CARGO_NET_OFFLINE=true
 cargo build --release --offline --target-dir target/cfg_a --features cfg_a
 cargo build --release --offline --target-dir target/cfg_a -p tvm
 cargo build --release --offline --target-dir target/cfg_b --no-default-features --features cfg_b
+# payloads without drop glue; the crate with debug assertions and overflow checks on
+cargo build --release --offline --target-dir target/cfg_p --features cfg_a,plain_payloads
+CARGO_PROFILE_RELEASE_DEBUG_ASSERTIONS=true CARGO_PROFILE_RELEASE_OVERFLOW_CHECKS=true cargo build --release --offline --target-dir target/cfg_d --features cfg_a
 mkdir -p ../work ../replays ../evidence
 echo setup ok
